@@ -136,7 +136,19 @@ func (c *Real32) AllocForOne(a ConstScalar) {
   c.Alloc(a.GetN(), a.GetOrder())
 }
 func (c *Real32) AllocForTwo(a, b ConstScalar) {
-  c.Alloc(iMax(a.GetN(), b.GetN()), iMax(a.GetOrder(), b.GetOrder()))
+  n := iMax(a.GetN(), b.GetN())
+  order := iMax(a.GetOrder(), b.GetOrder())
+  if c.N == n && c.Order == 1 && order == 2 {
+    // c may be one of the operands (c.Add(c, b)): keep its gradient and
+    // only add an empty Hessian
+    c.Order = 2
+    c.Hessian = make([][]float32, n)
+    for i := 0; i < n; i++ {
+      c.Hessian[i] = make([]float32, n)
+    }
+  } else {
+    c.Alloc(n, order)
+  }
 }
 /* read access
  * -------------------------------------------------------------------------- */
